@@ -4,6 +4,7 @@ fn main() {
     let fam = args.get(1).map(|s| s.as_str()).unwrap_or("");
     match fam {
         "store" => sv::store::main(&args[2..]),
+        "views" => sv::views::main(&args[2..]),
         _ => {
             eprintln!("unknown family {fam}");
             std::process::exit(2);
